@@ -59,7 +59,7 @@ func Registry() []*Spec {
 		Quick: map[string]int{"B": 3, "STEP": 2, "NTHB": 4, "NSHAPES": 4}, Thorough: map[string]int{"B": 5, "STEP": 3, "NTHB": 6},
 		Covers: []string{"changed", "nothing-selected", "error"}, UnitDepth: 6,
 		AllowUnsupported: []string{"formatted (fmt) string", "(reflect.Value)."},
-		Note: "Set/SetOne/Del/DelOne/Remove/RemoveOne/Modify/ModifyOne vs reference mutations (vref.SetAll/RemoveAll) applied at the locations of the reference selector; frame condition = whole-tree equality with the reference result; overlapping selections (descent) skipped; Set creating new members not asserted; error => data unchanged"})
+		Note: "Set/SetOne/Del/DelOne/Remove/RemoveOne/Modify/ModifyOne vs reference mutations (vref.SetAll/RemoveAll) applied at the locations of the reference selector; frame condition = whole-tree equality with the reference result; overlapping selections (descent) skipped; Set creating new members not asserted; error => data unchanged; a slice-grid frame assertion independent of the slice end reading; Set / Del / Modify on the same tree held in jp.Keyed / jp.Indexed collections have the same effect as on the simple data"})
 	// ---- C12: filter scripts are total and typed
 	add(Spec{Property: "C12", Name: "VerifC12_Ops", Pkg: "jp",
 		Quick: map[string]int{}, Thorough: map[string]int{},
